@@ -46,7 +46,7 @@ fn range_operand(rng: &mut Rng, small: bool, for_delete: bool) -> (String, Optio
 impl Prop for C15 {
     fn cases(&self, tier: Tier) -> u64 {
         match tier {
-            Tier::Quick => 18_000,
+            Tier::Quick => 150_000,
             Tier::Thorough => 300_000,
         }
     }
@@ -467,8 +467,8 @@ impl C05 {
 impl Prop for C05 {
     fn cases(&self, tier: Tier) -> u64 {
         match tier {
-            Tier::Quick => 12_000,
-            Tier::Thorough => 200_000,
+            Tier::Quick => 30_000,
+            Tier::Thorough => 1_000_000,
         }
     }
 
